@@ -31,8 +31,17 @@ import subprocess
 import sys
 import time
 
+import threading
+
 VERIF = os.path.dirname(os.path.dirname(os.path.abspath(__file__)))
 REPO = "/repo"
+# C06 and C10 regenerate a Lean file of their own (lean/Gen/DfaCerts.lean, Effects.lean) before they build: one at a time
+SERIAL = {"C06": threading.Lock(), "C10": threading.Lock()}
+
+
+class _NoLock:
+    def __enter__(self): return self
+    def __exit__(self, *a): return False
 
 
 def sh(cmd, timeout=None, env=None, cwd=None):
@@ -253,7 +262,8 @@ def run_mutant(m, idx, out, seeds, tier):
         for prop in m["props"]:
             for seed in seeds:
                 cenv = dict(os.environ, VERIF_SEED=str(seed), VERIF_REPO=wt, VERIF_OUT=outdir)
-                c = sh(f"{VERIF}/check {prop} {tier}", timeout=1500, env=cenv)
+                with SERIAL.get(prop, _NoLock()):
+                    c = sh(f"{VERIF}/check {prop} {tier}", timeout=1500, env=cenv)
                 viol = [l for l in c.stdout.splitlines() if l.startswith("VIOLATION ")]
                 res["checks"][f"{prop}@{seed}"] = {"exit": c.returncode, "violations": len(viol)}
                 if c.returncode == 1 and viol:
